@@ -28,13 +28,22 @@ func (b *setBuilder) add(s *Spec) int {
 	return s.ID
 }
 
-func dateOf(id int) int64 { return int64(1000 + 10*id) }
+const sec = int64(1000000000)
+
+func dateOf(id int) int64 { return int64(1000+10*id) * sec }
 
 func (b *setBuilder) key(k int) int        { return b.add(&Spec{Kind: "key", Key: k}) }
 func (b *setBuilder) pn(signer, n int) int { return b.add(&Spec{Kind: "pn", Signer: signer, Nonce: n}) }
 func (b *setBuilder) claim(signer, pn int, ct, attr, val string) int {
 	id := b.add(&Spec{Kind: "claim", Signer: signer, PN: pn, CType: ct, Attr: attr, Val: val})
 	b.specs[len(b.specs)-1].Date = dateOf(id)
+	return id
+}
+
+// claimAt: a claim with an explicit date (unix nanoseconds)
+func (b *setBuilder) claimAt(signer, pn int, ct, attr, val string, date int64) int {
+	id := b.add(&Spec{Kind: "claim", Signer: signer, PN: pn, CType: ct, Attr: attr, Val: val})
+	b.specs[len(b.specs)-1].Date = date
 	return id
 }
 func (b *setBuilder) del(signer, target int) int {
@@ -46,8 +55,9 @@ func (b *setBuilder) chunk(salt, size int) int {
 	return b.add(&Spec{Kind: "opaque", Nonce: salt, Size: size})
 }
 func (b *setBuilder) bytes(parts ...Part) int { return b.add(&Spec{Kind: "bytes", Parts: parts}) }
+// file: mtime in unix seconds (0 = none)
 func (b *setBuilder) file(name int, mtime int64, parts ...Part) int {
-	return b.add(&Spec{Kind: "file", Name: name, MTime: mtime, Parts: parts})
+	return b.add(&Spec{Kind: "file", Name: name, MTime: mtime * sec, Parts: parts})
 }
 func (b *setBuilder) sset(merge bool, refs ...int) int {
 	return b.add(&Spec{Kind: "sset", Merge: merge, Refs: refs})
@@ -73,14 +83,71 @@ func (b *setBuilder) c(id int) Part { return Part{'c', id, b.sizeOf(id)} }
 func (b *setBuilder) y(id int) Part { return Part{'y', id, b.sizeOf(id)} }
 func z(n int) Part                  { return Part{'z', 0, n} }
 
-func (b *setBuilder) finish(name string, deliver []int) (*Set, error) {
+func (b *setBuilder) build(name string) (*World, error) {
 	w := NewWorld()
 	for _, s := range b.specs {
+		s.Size, s.Mime, s.FSize, s.Whole, s.ImgW, s.ImgH = 0, "", 0, 0, 0, 0
+		if s.Kind == "opaque" {
+			s.Size = s.sizeGiven
+		}
 		if err := w.Add(s); err != nil {
 			return nil, fmt.Errorf("%s: blob %d: %v", name, s.ID, err)
 		}
 	}
-	return &Set{Name: name, Specs: b.specs, Deliver: deliver, W: w}, nil
+	return w, nil
+}
+
+// finish builds the world. Claims of one permanode with EQUAL dates are ordered by their blobrefs by
+// the index (row keys) and by the corpus; the model orders them by id, so the attribute/value/type of
+// such claims are dealt to the ids in blobref order (the ref of a claim does not depend on its id).
+func (b *setBuilder) finish(name string, deliver []int) (*Set, error) {
+	for _, s := range b.specs {
+		if s.Kind == "opaque" {
+			s.sizeGiven = s.Size
+		}
+	}
+	for round := 0; ; round++ {
+		w, err := b.build(name)
+		if err != nil {
+			return nil, err
+		}
+		groups := map[[2]int64][]*Spec{}
+		for _, s := range b.specs {
+			if s.Kind == "claim" {
+				k := [2]int64{int64(s.PN), s.Date}
+				groups[k] = append(groups[k], s)
+			}
+		}
+		changed := false
+		for _, g := range groups {
+			if len(g) < 2 {
+				continue
+			}
+			type content struct {
+				signer          int
+				ct, attr, val   string
+				ref             string
+			}
+			var cs []content
+			for _, s := range g {
+				cs = append(cs, content{s.Signer, s.CType, s.Attr, s.Val, w.Blob[s.ID].BlobRef().String()})
+			}
+			sorted := append([]content(nil), cs...)
+			sort.Slice(sorted, func(i, j int) bool { return sorted[i].ref < sorted[j].ref })
+			for i, s := range g { // g is in ascending id order (specs order)
+				if sorted[i].ref != cs[i].ref {
+					s.Signer, s.CType, s.Attr, s.Val = sorted[i].signer, sorted[i].ct, sorted[i].attr, sorted[i].val
+					changed = true
+				}
+			}
+		}
+		if !changed {
+			return &Set{Name: name, Specs: b.specs, Deliver: deliver, W: w}, nil
+		}
+		if round > 6 {
+			return nil, fmt.Errorf("%s: equal-date claims do not settle", name)
+		}
+	}
 }
 
 func seq(from, to int) []int {
@@ -264,6 +331,40 @@ func FixedSets(r *hk.Rand) []*Set {
 		b.claim(k, p1, "set", "o0", fmt.Sprintf("r%d", f2))
 		push(b, "content-file-switch", seq(1, 8))
 	}
+	{ // one signer, one permanode, one attribute, four claims within one second: the text of the dates
+		// (RFC 3339 without trailing zeros: ...20Z, ...20.5Z, ...20.55Z, ...20.500000001Z) sorts differently from the times
+		b := &setBuilder{}
+		k := b.key(0)
+		p := b.pn(k, n+15)
+		base := dateOf(40)
+		b.claimAt(k, p, "set", "i0", "s1", base)
+		b.claimAt(k, p, "set", "i0", "s2", base+500000000)
+		b.claimAt(k, p, "add", "i0", "s3", base+550000000)
+		b.claimAt(k, p, "set", "i0", "s4", base+500000001)
+		push(b, "same-second-claims", seq(1, 6))
+	}
+	{ // the same with the whole second last in time order, and a delete claim between two fractions
+		b := &setBuilder{}
+		k := b.key(1)
+		p := b.pn(k, n+16)
+		base := dateOf(50)
+		c1 := b.claimAt(k, p, "set", "i1", "s1", base+999999999)
+		b.claimAt(k, p, "set", "i1", "s2", base+sec)
+		b.claimAt(k, p, "set", "i1", "s3", base+990000000)
+		b.add(&Spec{Kind: "del", Signer: k, Target: c1, Date: base + 999000000})
+		push(b, "second-boundary-claims", seq(1, 6))
+	}
+	{ // claims with EQUAL dates on one permanode and attribute (and a later one 1 ns after)
+		b := &setBuilder{}
+		k := b.key(0)
+		p := b.pn(k, n+17)
+		base := dateOf(60) + 250000000
+		b.claimAt(k, p, "set", "i0", "s1", base)
+		b.claimAt(k, p, "set", "i0", "s2", base)
+		b.claimAt(k, p, "add", "i0", "s3", base)
+		b.claimAt(k, p, "add", "i0", "s4", base+1)
+		push(b, "equal-date-claims", seq(1, 6))
+	}
 	return sets
 }
 
@@ -274,6 +375,8 @@ func RandomSet(r *hk.Rand, n int, idx int) *Set {
 		salt := r.Intn(50) * 16
 		var keys, pns, claims, dels, chunks, byts, files, ssets, all []int
 		contentOwner := map[int]int{}
+		claimsOn := map[int][]int{}
+		usedDates := map[int64]bool{}
 		pick := func(xs []int) int { return xs[r.Intn(len(xs))] }
 		keys = append(keys, b.key(r.Intn(2)))
 		all = append(all, keys[0])
@@ -305,7 +408,28 @@ func RandomSet(r *hk.Rand, n int, idx int) *Set {
 						contentOwner[t] = pn
 					}
 				}
-				id = b.claim(pick(keys), pn, []string{"set", "add", "del"}[r.Intn(3)], attr, val)
+				ct := []string{"set", "add", "del"}[r.Intn(3)]
+				if prev := claimsOn[pn]; len(prev) > 0 && r.Chance(60) {
+					// the same signer, permanode and attribute within the same second as an earlier claim:
+					// fractions whose RFC 3339 text sorts differently from the times, and equal dates
+					e := b.specs[prev[r.Intn(len(prev))]-1]
+					base := e.Date - e.Date%sec
+					d := base + []int64{0, 500000000, 550000000, 500000001, 50000000, 999999999, 1, e.Date % sec}[r.Intn(8)]
+					if d != e.Date && usedDates[d] {
+						d = e.Date // an equal date rather than a date shared with another permanode
+					}
+					if !(e.Attr == "o0") {
+						attr = e.Attr
+						if val[0] == 'r' && attr != "m" && attr[0] != 'p' {
+							val = fmt.Sprintf("s%d", 1+r.Intn(5))
+						}
+					}
+					id = b.claimAt(e.Signer, pn, ct, attr, val, d)
+				} else {
+					id = b.claim(pick(keys), pn, ct, attr, val)
+				}
+				usedDates[b.specs[id-1].Date] = true
+				claimsOn[pn] = append(claimsOn[pn], id)
 				claims = append(claims, id)
 			case k <= 7:
 				var cands []int
@@ -413,6 +537,24 @@ func (s *Set) Shapes() []string {
 			if f := s.W.Specs[id]; f != nil && f.Kind == "file" && f.MTime != 0 {
 				out["shape:content-file-with-time"] = true
 			}
+		}
+	}
+	type pnSec struct {
+		pn  int
+		sec int64
+	}
+	secs := map[pnSec][]int64{}
+	for _, sp := range s.Specs {
+		if sp.Kind == "claim" {
+			k := pnSec{sp.PN, sp.Date / sec}
+			for _, d := range secs[k] {
+				if d == sp.Date {
+					out["shape:equal-date-claims-on-a-permanode"] = true
+				} else {
+					out["shape:claims-within-one-second"] = true
+				}
+			}
+			secs[k] = append(secs[k], sp.Date)
 		}
 	}
 	var ks []string
@@ -575,6 +717,7 @@ type Schedule struct {
 	Steps    bool // dump after every arrival (else only at the end)
 	KV       string
 	Corpus   bool
+	Faults   map[int]string // arrival position -> commit|set|delete: that arrival meets a failing sorted.KeyValue
 }
 
 // Hangs counts the ops that hit the watchdog; after MaxHangs of them no further case is run (each
@@ -642,12 +785,17 @@ func RunCase(r *hk.Run, s *Set, sc *Schedule, obsEvery bool) caseResult {
 		res.lastObs = a
 	}
 	waited := map[string]bool{}
+	staleRows := false
 	check := func(when string) {
 		if hung {
 			return
 		}
 		d, p := op("dump"), op("pend")
 		if hung {
+			return
+		}
+		if staleRows {
+			res.finalDump, res.finalPend = "stale", "stale"
 			return
 		}
 		for _, row := range strings.Split(d, ";") {
@@ -702,7 +850,24 @@ func RunCase(r *hk.Run, s *Set, sc *Schedule, obsEvery bool) caseResult {
 			if !sc.SrcFirst {
 				op(fmt.Sprintf("src %d", id))
 			}
-			if out := op(fmt.Sprintf("recv %d", id)); out != "ok" && out != "hang" {
+			if kind := sc.Faults[i]; kind != "" {
+				out := op(fmt.Sprintf("frecv %d %s", id, kind))
+				r.Hit("fault:" + kind)
+				if kind == "delete" {
+					staleRows = true // rows the index could not delete stay behind: only live == reload is required from here on
+				}
+				if out == "err" {
+					// nothing of the failed arrival may be visible anywhere: live == reload right now
+					r.Hit("fault:" + kind + ":receive-failed")
+					op("dump")
+					op("pend")
+					observe(fmt.Sprintf("after the failed arrival %d (%s fails)", i+1, kind))
+					// ... and the blob can be received again
+					if out2 := op(fmt.Sprintf("recv %d", id)); out2 != "ok" && out2 != "hang" {
+						r.Fail("c05-receive-error", fmt.Sprintf("ReceiveBlob of b%d failed again after the store recovered", id), "ok", out2, r.CaseOps())
+					}
+				}
+			} else if out := op(fmt.Sprintf("recv %d", id)); out != "ok" && out != "hang" {
 				r.Fail("c05-receive-error", fmt.Sprintf("ReceiveBlob of b%d reported an error", id), "ok", out, r.CaseOps())
 			}
 			delivered[id] = true
@@ -787,6 +952,14 @@ func Explore(r *hk.Run, s *Set, obs bool, maxPerm int, extra int) {
 		if got.finalDump == "hang" || ref.finalDump == "hang" {
 			return // reported as c05-op-hangs
 		}
+		if got.finalDump == "stale" {
+			// a failing Delete left missing| rows behind: the answers must still be those of the reference
+			if obs && got.lastObs != ref.lastObs {
+				r.Fail("c06-answers-depend-on-schedule", "final query answers of schedule "+label+" differ from the in-order delivery",
+					ref.lastObs, got.lastObs, r.CaseOps())
+			}
+			return
+		}
 		if got.finalDump != ref.finalDump {
 			r.Fail("c05-rows-depend-on-schedule", "final rows of schedule "+label+" differ from the in-order delivery of the same blobs",
 				ref.finalDump, got.finalDump, r.CaseOps())
@@ -840,6 +1013,23 @@ func Explore(r *hk.Run, s *Set, obs bool, maxPerm int, extra int) {
 		sc := &Schedule{Label: "srcfirst " + idsTok(o), Order: o, SrcFirst: true, Restart: -1, KV: "mem", Corpus: corpus}
 		compare(sc.Label, RunCase(r, s, sc, obs))
 		r.Hit("sched:source-first")
+	}
+	// transient failures of the index's sorted.KeyValue at one or two arrivals
+	for j := 0; j < extra*2; j++ {
+		o := orders[r.R.Intn(len(orders))]
+		faults := map[int]string{}
+		for k := 0; k < 1+r.R.Intn(2); k++ {
+			kind := "commit"
+			if x := r.R.Intn(10); x >= 8 {
+				kind = "delete"
+			} else if x >= 5 {
+				kind = "set"
+			}
+			faults[r.R.Intn(n)] = kind
+		}
+		sc := &Schedule{Label: "kvfaults " + idsTok(o), Order: o, Restart: -1, Steps: true, KV: kvOf(j), Corpus: corpus, Faults: faults}
+		compare(sc.Label, RunCase(r, s, sc, obs))
+		r.Hit("sched:kv-faults")
 	}
 	// content last: every claim is indexed (and the orderings enumerated) before the files they point to
 	{
@@ -966,7 +1156,7 @@ func Malformed(r *hk.Run) {
 func MalformedObs(r *hk.Run) {
 	r.Case("malformed")
 	ex := NewExecObj()
-	for _, l := range []string{"obs", "obsr", "open mem 1", "obs 1", "obs", "obsr", "restart", "obs", "reindex", "obsr", "close", "obs"} {
+	for _, l := range []string{"obs", "obsr", "frecv 1 commit", "open mem 1", "frecv 1", "frecv 1 boom", "frecv 9 commit", "obs 1", "obs", "obsr", "restart", "obs", "reindex", "obsr", "close", "obs"} {
 		r.Op(l, ex.Do(strings.Fields(l)))
 	}
 	r.Hit("malformed-stream")
